@@ -1577,5 +1577,287 @@ theorem AutoInv.run : ∀ (ops : List Op) (hm : HM), AutoInv hm → UserEvents o
 theorem AutoInv.new (attr : Name) (ov auto : Bool) : AutoInv (HM.new attr ov auto) :=
   ⟨(fun _ s hs => by cases hs), (fun e ts hk _ => by cases hk)⟩
 
+
+/-! ### hierarchical machines -/
+
+theorem mem_descend {t : List Path} {e : Name} {a : Path} : a ∈ descend t e ↔ a ≠ [] ∧ (e :: a) ∈ t := by
+  simp only [descend, List.mem_filterMap, List.mem_filter]
+  constructor
+  · rintro ⟨p, ⟨hp, hh⟩, hm⟩
+    cases p with
+    | nil => simp at hh
+    | cons x r =>
+      simp only [List.head?_cons, decide_eq_true_eq, Option.some.injEq] at hh
+      subst hh
+      simp only [List.tail_cons] at hm
+      split at hm
+      · cases hm
+      · injection hm with hm; subst hm
+        rename_i hne
+        exact ⟨fun h => hne h, hp⟩
+  · rintro ⟨hne, hm⟩
+    refine ⟨e :: a, ⟨hm, by simp⟩, ?_⟩
+    simp only [List.tail_cons]
+
+theorem any_head_iff {t : List Path} {e : Name} : (t.any fun p => p.head? = some e) = true ↔ ∃ r, (e :: r) ∈ t := by
+  simp only [List.any_eq_true, decide_eq_true_eq]
+  constructor
+  · rintro ⟨p, hp, hh⟩
+    cases p with
+    | nil => simp at hh
+    | cons x r => simp at hh; subst hh; exact ⟨r, hp⟩
+  · rintro ⟨r, hr⟩; exact ⟨e :: r, hr, rfl⟩
+
+/-- `is_state(…, allow_substates=True)`: the path is (a prefix of) an active path -/
+theorem isStateH_allow : ∀ (p : Path) (t : List Path), isStateH t p true = true ↔ (p = [] ∨ ∃ a ∈ t, p <+: a)
+  | [], t => by simp [isStateH]
+  | e :: r, t => by
+    unfold isStateH
+    by_cases hany : (t.any fun p => p.head? = some e) = true
+    · simp only [hany, if_true]
+      rw [isStateH_allow r (descend t e)]
+      obtain ⟨r0, hr0⟩ := any_head_iff.mp hany
+      constructor
+      · rintro (h | ⟨a, ha, hpre⟩)
+        · subst h; exact Or.inr ⟨e :: r0, hr0, by simp⟩
+        · exact Or.inr ⟨e :: a, (mem_descend.mp ha).2, by simpa using hpre⟩
+      · rintro (h | ⟨a, ha, hpre⟩)
+        · cases h
+        · cases a with
+          | nil => simp at hpre
+          | cons x a' =>
+            obtain ⟨hx, hpre'⟩ : e = x ∧ r <+: a' := by simpa using hpre
+            subst hx
+            by_cases hr : r = []
+            · exact Or.inl hr
+            · refine Or.inr ⟨a', mem_descend.mpr ⟨?_, ha⟩, hpre'⟩
+              intro h; subst h; exact hr (List.prefix_nil.mp hpre')
+    · simp only [hany, if_false]
+      constructor
+      · intro h; cases h
+      · rintro (h | ⟨a, ha, hpre⟩)
+        · cases h
+        · exfalso; apply hany
+          cases a with
+          | nil => simp at hpre
+          | cons x a' =>
+            obtain ⟨hx, _⟩ : e = x ∧ r <+: a' := by simpa using hpre
+            subst hx; exact any_head_iff.mpr ⟨a', ha⟩
+
+/-- `is_state(…)` without substates: the path is active and nothing active lies below it -/
+theorem isStateH_exact : ∀ (p : Path) (t : List Path), (∀ a ∈ t, a ≠ []) →
+    (isStateH t p false = true ↔ ((p = [] ∨ ∃ a ∈ t, p <+: a) ∧ ∀ a ∈ t, p <+: a → a = p))
+  | [], t, hne => by
+    simp only [isStateH, Bool.or_false, List.isEmpty_iff, true_or, List.nil_prefix, forall_const, true_and]
+    constructor
+    · intro h; subst h; intro a ha; cases ha
+    · intro h
+      cases t with
+      | nil => rfl
+      | cons a t' => exact absurd (h a (List.mem_cons_self ..)) (hne a (List.mem_cons_self ..))
+  | e :: r, t, hne => by
+    unfold isStateH
+    have hne' : ∀ a ∈ descend t e, a ≠ [] := fun a ha => (mem_descend.mp ha).1
+    by_cases hany : (t.any fun p => p.head? = some e) = true
+    · simp only [hany, if_true]
+      rw [isStateH_exact r (descend t e) hne']
+      obtain ⟨r0, hr0⟩ := any_head_iff.mp hany
+      constructor
+      · rintro ⟨h1, h2⟩
+        refine ⟨Or.inr ?_, ?_⟩
+        · rcases h1 with h | ⟨a, ha, hpre⟩
+          · subst h; exact ⟨e :: r0, hr0, by simp⟩
+          · exact ⟨e :: a, (mem_descend.mp ha).2, by simpa using hpre⟩
+        · intro a ha hpre
+          cases a with
+          | nil => simp at hpre
+          | cons x a' =>
+            obtain ⟨hx, hpre'⟩ : e = x ∧ r <+: a' := by simpa using hpre
+            subst hx
+            by_cases ha' : a' = []
+            · subst ha'; rw [List.prefix_nil.mp hpre']
+            · rw [h2 a' (mem_descend.mpr ⟨ha', ha⟩) hpre']
+      · rintro ⟨h1, h2⟩
+        refine ⟨?_, ?_⟩
+        · rcases h1 with h | ⟨a, ha, hpre⟩
+          · cases h
+          · cases a with
+            | nil => simp at hpre
+            | cons x a' =>
+              obtain ⟨hx, hpre'⟩ : e = x ∧ r <+: a' := by simpa using hpre
+              subst hx
+              by_cases hr : r = []
+              · exact Or.inl hr
+              · refine Or.inr ⟨a', mem_descend.mpr ⟨?_, ha⟩, hpre'⟩
+                intro h; subst h; exact hr (List.prefix_nil.mp hpre')
+        · intro a ha hpre
+          have := h2 (e :: a) (mem_descend.mp ha).2 (by simpa using hpre)
+          injection this
+    · simp only [hany, if_false]
+      constructor
+      · intro h; cases h
+      · rintro ⟨h1, _⟩
+        exfalso; apply hany
+        rcases h1 with h | ⟨a, ha, hpre⟩
+        · cases h
+        · cases a with
+          | nil => simp at hpre
+          | cons x a' =>
+            obtain ⟨hx, _⟩ : e = x ∧ r <+: a' := by simpa using hpre
+            subst hx; exact any_head_iff.mpr ⟨a', ha⟩
+
+
+/-- every scope's event table has unique keys (they are dicts) -/
+def HSM.ScopesNodup (h : HSM) : Prop := ∀ pre, (keys (h.scopeEvents pre)).Nodup
+
+theorem mem_scopeTriggers {evs : List (Name × List Path)} (hn : (keys evs).Nodup) {e : Name} {p : Path} :
+    e ∈ scopeTriggers evs p ↔ declared evs e p = true := by
+  simp only [scopeTriggers, List.mem_filterMap, declared]
+  constructor
+  · rintro ⟨⟨e', srcs⟩, hm, hs⟩
+    split at hs
+    · rename_i hc
+      injection hs with hs; subst hs
+      have : kget e' evs = some srcs := by
+        clear hc
+        induction evs with
+        | nil => cases hm
+        | cons hd t ih =>
+          obtain ⟨k0, v0⟩ := hd
+          simp only [keys, List.map_cons, List.nodup_cons] at hn
+          rcases List.mem_cons.mp hm with h | h
+          · injection h with h1 h2; subst h1; subst h2; simp [kget]
+          · have : k0 ≠ e' := by intro e; subst e; exact hn.1 (List.mem_map_of_mem (f := (·.1)) h)
+            simp only [kget, this, if_false]; exact ih hn.2 h
+      simp only [this]; exact hc
+    · cases hs
+  · intro h
+    cases hk : kget e evs with
+    | none => simp [hk] at h
+    | some srcs =>
+      simp only [hk] at h
+      exact ⟨(e, srcs), kget_mem _ _ _ hk, by show (if srcs.contains p = true then some e else none) = some e; rw [if_pos h]⟩
+
+theorem self_mem_prefixesDesc : ∀ (p : Path), p ≠ [] → p ∈ prefixesDesc p
+  | [], h => absurd rfl h
+  | [x], _ => by simp [prefixesDesc]
+  | x :: y :: tl, _ => by
+    unfold prefixesDesc
+    exact List.mem_append_left _ (List.mem_map_of_mem (self_mem_prefixesDesc (y :: tl) (by simp)))
+
+/-- every state on the way from `pre` down the path `rel` is registered -/
+def PathStates (h : HSM) : Path → Path → Prop
+  | _, [] => True
+  | pre, x :: tl => (pre ++ [x]) ∈ h.states ∧ PathStates h (pre ++ [x]) tl
+
+/-- no false positives: whatever `get_nested_triggers` lists does fire -/
+theorem nestedTriggers_sound (h : HSM) (hn : h.ScopesNodup) (e : Name) : ∀ (rel pre : Path),
+    e ∈ nestedTriggers h pre rel → firesIn h pre rel e = true
+  | [], _, hm => by simp [nestedTriggers] at hm
+  | x :: tl, pre, hm => by
+    unfold nestedTriggers at hm
+    unfold firesIn
+    rcases List.mem_append.mp hm with h1 | h1
+    · have := (mem_scopeTriggers (hn pre)).mp h1
+      simp only [Bool.or_eq_true, List.any_eq_true]
+      exact Or.inl ⟨x :: tl, self_mem_prefixesDesc _ (by simp), this⟩
+    · split at h1
+      · rename_i hc
+        have := nestedTriggers_sound h hn e tl (pre ++ [x]) h1
+        simp only [Bool.or_eq_true, Bool.and_eq_true]
+        exact Or.inr ⟨by simpa using hc.1, this⟩
+      · cases h1
+
+/-- completeness below the root, outside the finding: in a nested scope only the full remaining path
+is consulted, so an event declared there on a proper ancestor is missed -/
+theorem nestedTriggers_complete (h : HSM) (hn : h.ScopesNodup) (e : Name) : ∀ (rel pre : Path), pre ≠ [] →
+    localAncestorDecl h pre rel = false → PathStates h pre rel → firesIn h pre rel e = true →
+    e ∈ nestedTriggers h pre rel
+  | [], _, _, _, _, hf => by simp [firesIn] at hf
+  | x :: tl, pre, hpre, hl, hp, hf => by
+    unfold localAncestorDecl at hl
+    unfold firesIn at hf
+    unfold nestedTriggers
+    simp only [Bool.or_eq_false_iff, Bool.and_eq_false_iff] at hl
+    simp only [Bool.or_eq_true, Bool.and_eq_true, List.any_eq_true] at hf
+    rcases hf with ⟨q, hq, hd⟩ | ⟨htl, hsub⟩
+    · apply List.mem_append_left
+      have hqe : q = x :: tl := by
+        rcases hl.1 with h1 | h1
+        · simp [hpre] at h1
+        · -- the scope declares `e` on `q`, a non-empty prefix: it must be the whole remaining path
+          apply Classical.byContradiction
+          intro hne
+          have hk : ∃ srcs, kget e (h.scopeEvents pre) = some srcs ∧ srcs.contains q = true := by
+            unfold declared at hd
+            cases hk : kget e (h.scopeEvents pre) with
+            | none => simp [hk] at hd
+            | some srcs => exact ⟨srcs, rfl, by simpa [hk] using hd⟩
+          obtain ⟨srcs, hk, hc⟩ := hk
+          have hall := List.any_eq_false.mp h1 (e, srcs) (kget_mem _ _ _ hk)
+          have hq' : q ∈ srcs := by simpa using hc
+          have : (srcs.any fun q => decide (q ≠ x :: tl) && (prefixesDesc (x :: tl)).contains q) = true :=
+            List.any_eq_true.mpr ⟨q, hq', by simp [hne, hq]⟩
+          exact hall this
+      subst hqe
+      exact (mem_scopeTriggers (hn pre)).mpr hd
+    · apply List.mem_append_right
+      have htl' : tl ≠ [] := by simpa using htl
+      cases tl with
+      | nil => exact absurd rfl htl'
+      | cons y tl' =>
+        have hst : (pre ++ [x]) ∈ h.states := hp.1
+        simp only [ne_eq, reduceCtorEq, not_false_eq_true, hst, and_self, if_true]
+        refine nestedTriggers_complete h hn e (y :: tl') (pre ++ [x]) (by simp) ?_ hp.2 hsub
+        rcases hl.2 with h1 | h1
+        · simp at h1
+        · exact h1
+
+
+/-! ### decidable forms of the hypotheses on histories (for the non-vacuity examples) -/
+
+def remOKB (all : List Op) (e : Name) : Bool :=
+  !sIs.isPrefixOf e && e != sTrigger &&
+    all.all fun op => match op with
+      | .addModel _ o => (o.getattr e).isNone
+      | _ => true
+
+def fopsB (ops : List Op) : Bool :=
+  ops.all fun op => match op with
+    | .removeTransition e _ _ => remOKB ops e
+    | _ => true
+
+theorem FOps_of_B {ops : List Op} (h : fopsB ops = true) : FOps ops ops := by
+  refine ⟨?_, fun _ h => h⟩
+  intro e src dst hm
+  simp only [fopsB, List.all_eq_true] at h
+  have := h _ hm
+  simp only [remOKB, Bool.and_eq_true, Bool.not_eq_true', bne_iff_ne, ne_eq, List.all_eq_true] at this
+  refine ⟨?_, this.1.2, ?_⟩
+  · intro hp
+    have h1 := List.isPrefixOf_iff_prefix.mpr hp
+    rw [this.1.1] at h1; cases h1
+  · intro m o0 hmo
+    have := this.2 _ hmo
+    simpa using this
+
+def userEventsB (ops : List Op) : Bool :=
+  ops.all fun op => match op with
+    | .addTransition e _ _ _ => !sTo.isPrefixOf e
+    | .removeTransition e _ _ => !sTo.isPrefixOf e
+    | _ => true
+
+theorem UserEvents_of_B {ops : List Op} (h : userEventsB ops = true) : UserEvents ops := by
+  simp only [userEventsB, List.all_eq_true] at h
+  refine ⟨?_, ?_⟩
+  · intro e src dst pass hm hp
+    have := h _ hm
+    simp only [Bool.not_eq_true'] at this
+    rw [List.isPrefixOf_iff_prefix.mpr hp] at this; cases this
+  · intro e src dst hm hp
+    have := h _ hm
+    simp only [Bool.not_eq_true'] at this
+    rw [List.isPrefixOf_iff_prefix.mpr hp] at this; cases this
+
 end Helpers
 end TM
